@@ -25,7 +25,9 @@ Deliberately non-smooth points are detected, counted (``nonsmooth:*``) and not j
 jitter added by ``AddJitterOp`` (observed by a read-only wrapper around the primitive: the
 jitter depends on ``mean(diag)`` and its vjp ignores that on purpose), predictive variance at
 the ``MIN_POSTERIOR_VARIANCE`` clamp, std below the ``1e-10`` clamp of ``get_quantiles``,
-predicted cost below ``MIN_COST`` in EIpu — on the point or anywhere on its stencil. The CEI
+predicted cost below ``MIN_COST`` in EIpu — on the point or anywhere on its stencil — and ``x`` within
+round-off distance of a training input (``SquaredDistance`` returns ``abs(D)``; the sign of a computed
+``D`` at round-off level, hence the derivative of ``abs``, is arbitrary there). The CEI
 "feasibility switch" (no feasible incumbent for a fantasy sample => that sample's term is
 P(feasible) only) is a function of the predictor, not of ``x``: each regime is smooth in ``x``
 and is judged; the regimes are counted separately (``cei_regime:*``) and the only real switch —
@@ -59,16 +61,19 @@ RULE = (
 ASSUMPTIONS = [
     "derivatives are judged only where Richardson extrapolation over two step sizes is trustworthy: "
     "truncation estimate |R - D(h/2)| plus 3*delta/h (delta = measured round-off level of the value under "
-    "1e-13 relative perturbations) must not exceed tol = atol + rtol*max(|grad_i|,|R|); otherwise the "
-    "component is inconclusive. A component is violated iff |grad_i - R| > tol + error estimate.",
-    "tolerances: criterion rtol 2e-5, atol 1e-8*max(1,|value|); acquisition rtol 1e-4, atol 1e-9*|value| "
-    "(+1e-300); ops rtol 1e-5, atol 1e-9*scale. Value equality: |a-b| <= 1e-9*max(|a|,|b|) (+1e-300 / "
+    "1e-13 relative perturbations) must not exceed tol/10, tol = atol + rtol*max(|grad_i|,|R|); otherwise the "
+    "component is inconclusive. A trustworthy component is violated iff |grad_i - R| > tol (calibrated: the "
+    "observed discrepancy never exceeded 6x the error estimate on the unchanged tree).",
+    "tolerances: criterion rtol 1e-4, atol 1e-7*max(1,|value|); acquisition rtol 1e-3, atol 1e-8*|value| "
+    "(+1e-300); ops rtol 1e-4, atol 1e-8*scale. Value equality: |a-b| <= 1e-9*max(|a|,|b|) (+1e-300 / "
     "+1e-12*max(1,.) for the criterion).",
     "EI closed form: mean over fantasy samples of (inc-m-xi)*Phi(u)+s*phi(u), u=(inc-m-xi)/s, xi the "
     "acquisition function's documented jitter parameter; band 1e-9*s*(|u|Phi+phi); EI >= -4*eps*s*(|u|Phi+phi).",
     "points where AddJitterOp added jitter, or a variance/std/cost clamp is active on the stencil, are "
     "counted as non-smooth and not judged (inside an active std or cost clamp the hand-derived head "
-    "gradients ignore the clamp; this is outside what is judged here)",
+    "gradients ignore the clamp; this is outside what is judged here); likewise x whose scaled squared "
+    "distance to a training input is <= 256*eps*(|x|^2+|X_i|^2): abs(D) in SquaredDistance.forward then "
+    "differentiates with the sign of round-off (observed: 4 % error of d var/dx at distance 1.5e-8)",
     "x stays at least 1.5e-3 away from the faces of the unit cube so that the stencil stays inside the "
     "domain of the warping transform",
     "MCMC predictors (GPRegressionMCMC) are not covered; surrogate = GaussianProcessRegression",
@@ -77,14 +82,16 @@ CASE_TIMEOUT = 150
 SHARDS_PER_JOB = 3
 
 # ----------------------------------------------------------------------------------- tolerances
-CRIT_RTOL = 2e-5
-CRIT_ATOL_REL = 1e-8
+CRIT_RTOL = 1e-4
+CRIT_ATOL_REL = 1e-7
 CRIT_STEPS = (1e-3, 1e-4, 1e-2)
-ACQ_RTOL = 1e-4
-ACQ_ATOL_REL = 1e-9
+ACQ_RTOL = 1e-3
+ACQ_ATOL_REL = 1e-8
 ACQ_STEPS = (1e-3, 1e-4, 1e-5)
 X_MARGIN = 1.5e-3
-OPS_RTOL = 1e-5
+OPS_RTOL = 1e-4
+OPS_ATOL_REL = 1e-8
+TRUST = 10.0  # an estimate is trustworthy iff TRUST * (its error estimate) <= tol
 VALUE_RTOL = 1e-9
 
 _TARGET, _COST, _CONSTR = "target", "cost", "constraint"
@@ -163,8 +170,8 @@ def preload():
 CELLS = [(a, w, m, t) for a in (0, 1) for w in (0, 1) for m in ("scalar", "zero") for t in ("id", "boxcox")]
 SIZES = {
     # crit cases (x points each), acq cases (4 acquisition functions x xpoints each), ops cases
-    "quick": {"crit": 288, "crit_points": 5, "acq": 160, "acq_x": 4, "ops": 160},
-    "thorough": {"crit": 2400, "crit_points": 5, "acq": 1600, "acq_x": 4, "ops": 1600},
+    "quick": {"crit": 288, "crit_points": 5, "acq": 160, "acq_x": 5, "ops": 320},
+    "thorough": {"crit": 4800, "crit_points": 5, "acq": 3200, "acq_x": 5, "ops": 6400},
 }
 
 
@@ -195,7 +202,7 @@ def cases(tier, seed):
                 "ard": ard, "warp": warp, "mean": mean, "transform": tr,
                 "npend": npend, "nfant": int(rng.integers(1, 11)) if i % 3 else int(rng.integers(2, 11)),
                 "fit": bool(i % 3 == 0), "xpoints": sz["acq_x"],
-                "feas": ["mixed", "all", "none", "edge", "all"][i % 5],
+                "feas": ["mixed", "all", "none", "edge", "edge"][i % 5],
             }
         )
     for i in range(sz["ops"]):
@@ -206,24 +213,34 @@ def cases(tier, seed):
 
 
 def floors(tier):
-    q = tier == "quick"
+    """Calibrated on the unchanged tree (seeds 0..4, minimum over the seeds, ~25-30 % margin)."""
+    m = 1 if tier == "quick" else 14
     f = {}
     for c in CELLS:
-        f["decided:crit_point:" + _cell_name(*c)] = 50 if q else 400
-    f["decided:crit_value"] = 1000 if q else 8000
-    f["decided:crit_grad_component"] = 5000 if q else 40000
+        f["decided:crit_point:" + _cell_name(*c)] = 50 * m
+    f["decided:crit_point"] = 900 * m
+    f["decided:crit_value"] = 2000 * m
+    f["decided:crit_value_incl_priors"] = 1000 * m
+    f["decided:crit_grad_component"] = 6500 * m
+    for pc in ("noise_variance", "covariance_scale", "inverse_bandwidths", "mean_value", "boxcox_lambda", "power_a", "power_b"):
+        f["decided_nonzero:crit_grad:" + pc] = 200 * m
     for a in ("EI", "LCB", "EIpu", "CEI"):
-        f["decided:acq_point:" + a] = 150 if q else 1500
-    f["decided:acq_point:fantasies_gt1"] = 400 if q else 4000
-    f["decided:ei_closed_form"] = 200 if q else 2000
-    f["decided:ei_nonneg"] = 400 if q else 4000
-    f["decided:acq_value"] = 1500 if q else 15000
-    f["decided:op:cholesky_factorization"] = 1000 if q else 10000
-    f["decided:op:AddJitterOp"] = 1000 if q else 10000
-    f["decided:op:chained"] = 500 if q else 5000
-    f["reach:cholesky_factorization_backward"] = 1000
-    f["reach:_postprocess_gradient"] = 1000
-    f["reach:backward_gradient_given_predict"] = 1000
+        f["decided:acq_point:" + a] = 300 * m
+        f["decided:acq_point:fantasies_gt1:" + a] = 200 * m
+    f["decided:acq_point:fantasies_gt1"] = 1000 * m
+    f["decided:acq_point:CEI:none_feasible"] = 100 * m
+    f["decided:acq_point:CEI:mixed"] = 15 * m
+    f["decided:ei_closed_form"] = 600 * m
+    f["decided:ei_closed_form:fantasies_gt1"] = 400 * m
+    f["decided:ei_nonneg"] = 1800 * m
+    f["decided:acq_value"] = 2400 * m
+    f["decided:op:cholesky_factorization"] = 1400 * m
+    f["decided:op:AddJitterOp"] = 1000 * m
+    f["decided:op:chained"] = 1200 * m
+    f["reach:cholesky_factorization_backward"] = 5000 * m
+    f["reach:_postprocess_gradient"] = 5000 * m
+    f["reach:backward_gradient_given_predict"] = 3000 * m
+    f["reach:get_quantiles"] = 5000 * m
     return f
 
 
@@ -239,11 +256,11 @@ def _judge(g, d, atol, rtol):
     if d is None or not d.finite:
         return "inconclusive", float("nan")
     tol = atol + rtol * max(abs(g) if math.isfinite(g) else 0.0, abs(d.value))
-    if not (d.err <= tol):
+    if not d.trusted or not (TRUST * d.err <= tol):
         return "inconclusive", tol
     if not math.isfinite(g):
         return "violated", tol
-    return ("held" if abs(g - d.value) <= tol + d.err else "violated"), tol
+    return ("held" if abs(g - d.value) <= tol else "violated"), tol
 
 
 def _ratio_class(g, r):
@@ -495,7 +512,7 @@ def _run_crit(spec, o):
                 return v
 
             gi = float(grad[i])
-            dres = fd.best_of_ladder(phi, CRIT_STEPS, delta, lambda r, _g=gi: atol + CRIT_RTOL * max(abs(_g) if math.isfinite(_g) else 0.0, abs(r)))
+            dres = fd.best_of_ladder(phi, CRIT_STEPS, delta, lambda r, _g=gi: (atol + CRIT_RTOL * max(abs(_g) if math.isfinite(_g) else 0.0, abs(r))) / TRUST, f0=alone)
             if jit["seen"]:
                 stencil_jitter = True
                 n_inc += 1
@@ -626,9 +643,11 @@ def _build_predictor(rng, spec, state, hp_ranges, metric, boxcox, normalize, fit
 
 def _sample_x(rng, d, Xall, k):
     lo, hi = X_MARGIN, 1.0 - X_MARGIN
-    mode = k % 4
+    mode = k % 5
     if mode == 3:  # close to a data point (small predictive variance)
         x = Xall[int(rng.integers(Xall.shape[0]))] + rng.normal(scale=10 ** rng.uniform(-4, -1.5), size=d)
+    elif mode == 4:  # (almost) on a data point: variance / std clamps may be active
+        x = Xall[int(rng.integers(Xall.shape[0]))] + rng.normal(scale=10 ** rng.uniform(-8, -4), size=d)
     elif mode == 2:  # close to the boundary of the cube
         x = rng.uniform(lo, hi, size=d)
         j = int(rng.integers(d))
@@ -667,6 +686,30 @@ def _clamps_active(preds, names, rows):
         if nm == _COST and np.any(np.asarray(pr["mean"]) <= MIN_COST * (1 + 1e-6)):
             out.add("cost_clamp")
     return out
+
+
+def _sqdist_guard_active(pred, x):
+    """``SquaredDistance.forward`` returns ``abs(D)`` to guard against round-off: where the squared
+    distance between ``x`` and a training input is itself at round-off level, the sign of the computed
+    ``D`` (and with it the derivative autograd assigns to ``abs``) is arbitrary. Detected with the
+    model's own blocks (read-only): ``|D| <= 256 eps (|x_scaled|^2 + |X_i scaled|^2)``."""
+    st = pred.posterior_states[0]
+    kernel = st.kernel[0] if isinstance(st.kernel, tuple) else st.kernel
+    X = np.asarray(st.features, dtype=float)
+    R = np.asarray(x, dtype=float).reshape(1, -1)
+    try:
+        base = kernel
+        if hasattr(kernel, "warpings"):
+            for w in kernel.warpings:
+                X, R = np.asarray(w(X)), np.asarray(w(R))
+            base = kernel.kernel
+        sq = base.squared_distance
+        ib = np.reshape(np.asarray(sq._inverse_bandwidths(), dtype=float), (1, -1))
+        dabs = np.asarray(sq(X, R), dtype=float).reshape(-1)
+        norm2 = np.sum((X * ib) ** 2, axis=1) + np.sum((R * ib) ** 2)
+        return bool(np.any(dabs <= 256 * np.finfo(float).eps * norm2))
+    except Exception:  # noqa: BLE001 - unknown kernel structure: be conservative
+        return True
 
 
 def _run_acq(spec, o):
@@ -767,6 +810,8 @@ def _run_acq(spec, o):
             clamps = _clamps_active(preds, used, rows)
             if name == "CEI" and cei_margin:
                 clamps.add("cei_feasibility_margin")
+            if any(_sqdist_guard_active(preds[nm], x) for nm in used):
+                clamps.add("sqdist_abs_guard")
             if name not in ("EI", "EIpu", "CEI"):
                 clamps.discard("std_clamp")  # only get_quantiles clamps the std
             # ---- EI: closed form and sign (needs the smooth regime only for the closed form)
@@ -817,8 +862,14 @@ def _run_acq(spec, o):
                 derivs = []
                 for li, h in enumerate(ACQ_STEPS):
                     b = (li * d + i) * 4
-                    derivs.append(fd.richardson_from_values(svals[b], svals[b + 1], svals[b + 2], svals[b + 3], h, delta))
-                dres = fd.pick(derivs, lambda r, _g=gi: atol + ACQ_RTOL * max(abs(_g) if math.isfinite(_g) else 0.0, abs(r)))
+                    derivs.append(fd.richardson_from_values(svals[b], svals[b + 1], svals[b + 2], svals[b + 3], h, delta, f0=v0))
+                # honest truncation estimate: a 10x finer step has a ~1e4 times smaller truncation
+                # error; where its own round-off term is small, |R_h - R_h/10| bounds the error of R_h
+                for li in range(len(derivs) - 1):
+                    a, b = derivs[li], derivs[li + 1]
+                    if a.finite and b.finite and b.noise <= 0.1 * max(a.err, 1e-300):
+                        a.trunc = max(a.trunc, abs(a.value - b.value))
+                dres = fd.pick(derivs, lambda r, _g=gi: (atol + ACQ_RTOL * max(abs(_g) if math.isfinite(_g) else 0.0, abs(r))) / TRUST)
                 verdict, tol = _judge(gi, dres, atol, ACQ_RTOL)
                 if verdict == "inconclusive":
                     n_inc += 1
@@ -897,8 +948,8 @@ def _run_ops(spec, o):
         nonlocal decided_any
         vals0 = [phi(0.0)] + [phi(t) for t in (1e-13 * s for s in (1.0, -1.0, 0.7))]
         delta = fd.noise_from_values(vals0[0], vals0[1:])
-        atol = 1e-9 * scale
-        dres = fd.best_of_ladder(phi, steps, delta, lambda r: atol + OPS_RTOL * max(abs(analytic), abs(r)))
+        atol = OPS_ATOL_REL * scale
+        dres = fd.best_of_ladder(phi, steps, delta, lambda r: (atol + OPS_RTOL * max(abs(analytic), abs(r))) / TRUST, f0=vals0[0])
         verdict, tol = _judge(analytic, dres, atol, OPS_RTOL)
         if verdict == "inconclusive":
             o.count("inconclusive_direction:" + clause)
